@@ -326,7 +326,7 @@ func Run(c *core.Check) {
 	for _, part := range []struct {
 		name string
 		run  func(*core.Check)
-	}{{"tags", runTags}, {"whitespace", runWhitespace}, {"attrs", runAttrs}, {"raw", runRaw}, {"text", runText}, {"templates", runTemplates}, {"comments", runComments}, {"reviewed", runReviewed}} {
+	}{{"tags", runTags}, {"whitespace", runWhitespace}, {"attrs", runAttrs}, {"raw", runRaw}, {"text", runText}, {"templates", runTemplates}, {"comments", runComments}, {"history", runHistory}, {"reviewed", runReviewed}} {
 		// VERIF_C03_ONLY=tags,attrs restricts a run to some parts (debugging aid; such a
 		// run is reported as not exhaustive).
 		if only := os.Getenv("VERIF_C03_ONLY"); only != "" && !strings.Contains(","+only+",", ","+part.name+",") {
